@@ -21,6 +21,7 @@ fn main() {
     let t0 = std::time::Instant::now();
     match engine.as_str() {
         "plan" => engines::plan::run(&args, &mut rep),
+        "sysdata" => engines::sysdata::run(&args, &mut rep),
         _ => {
             eprintln!("unknown engine {:?}", engine);
             std::process::exit(2);
